@@ -136,7 +136,7 @@ DTYPES = ['float64', 'float32', 'complex128', 'complex64', 'int64', 'int32',
 DISCR_DTYPES = ['float64', 'float32', 'complex128', 'complex64', 'int64']
 KW_DTYPES = ['float64', 'float32', 'complex128', 'complex64', 'int64',
              'int32', 'int16', 'bool', 'float16']
-ORDERS = ('C', 'F', 'strided', 'rev')
+ORDERS = ('C', 'F', 'strided', 'rev', 'unaligned')
 WIDER = {'float16': 'float32', 'float32': 'float64', 'float64': 'complex128',
          'complex64': 'complex128', 'complex128': 'complex64',
          'int16': 'int64', 'int32': 'int64', 'int64': 'float64',
@@ -344,7 +344,7 @@ def _operand(draw, sd, forms):
         dt2 = dtype if not _one_in(draw, 4) else draw(
             st.sampled_from(DTYPES))
         return {'form': form, 'array': draw(vs.array_descs(
-            shape, dt2, lo=-30.0, hi=30.0))}
+            shape, dt2, lo=-30.0, hi=30.0, orders=ORDERS))}
     if form == 'bcast':
         # trailing sub-shape, or unit axes
         nd = len(shape)
@@ -354,7 +354,7 @@ def _operand(draw, sd, forms):
             if _one_in(draw, 4):
                 sub[i] = 1
         return {'form': 'ndarray', 'array': draw(vs.array_descs(
-            sub, dtype, lo=-30.0, hi=30.0))}
+            sub, dtype, lo=-30.0, hi=30.0, orders=ORDERS))}
     raise HarnessError(form)
 
 
@@ -369,7 +369,7 @@ def _out_desc(draw, ekind, kinds):
     # (np.signbit(np.zeros(24), out=np.ones(24, bool)[::-1]) leaves 14
     # entries True; same for isnan) - the reference must not be wrong
     od = {'kind': kind, 'order': draw(st.sampled_from(
-        ['C', 'C', 'F', 'strided'])), 'dtype': 'match'}
+        ['C', 'C', 'F', 'strided', 'unaligned'])), 'dtype': 'match'}
     if kind not in ('x', 'other') and _one_in(draw, 8):
         od['dtype'] = draw(st.sampled_from(
             ['float64', 'float32', 'complex128', 'int64']))
@@ -419,20 +419,6 @@ def _kw_dtype(draw, name, dtype, p=4):
     return draw(st.sampled_from(KW_DTYPES))
 
 
-def _thin_scalar_out(draw, desc, nd, default_none=False):
-    """Full reductions with out= need a 0-d out array, which is the region
-    of known finding C17-K5: keep one in five of those."""
-    kw = desc.get('kwargs', {})
-    if kw.get('keepdims'):
-        return
-    ax = kw.get('axis', None if default_none else 0)
-    full = ax is None or (isinstance(ax, list) and
-                          len(set(a % nd for a in ax)) == nd) or \
-        (isinstance(ax, int) and nd == 1)
-    if full and desc['out'][0] is not None and not _one_in(draw, 5):
-        desc['out'] = [None]
-
-
 METHODS = (['__call__'] * 7 + ['reduce'] * 5 + ['accumulate'] * 2 +
            ['outer'] * 2 + ['at'] * 2 + ['reduceat'] + ['legacy'] * 3 +
            ['legacy_red'] * 2 + ['wrap'] * 2)
@@ -480,8 +466,6 @@ def _case(draw):
                 kw['dtype'] = kd
             desc['out'] = [draw(_out_desc(ekind, [
                 'none', 'none', 'none', 'elem', 'ndarray', 'tensor']))]
-            desc['kwargs'] = kw
-            _thin_scalar_out(draw, desc, nd, default_none=True)
         desc['kwargs'] = kw
         return desc
 
@@ -524,7 +508,7 @@ def _case(draw):
                 else:
                     desc['other'] = {'form': 'ndarray', 'array': draw(
                         vs.array_descs(build.space_shape(b), dtype,
-                                       lo=-30.0, hi=30.0))}
+                                       lo=-30.0, hi=30.0, orders=ORDERS))}
             if 'other' not in desc:
                 if shape is None and form not in ('elem', 'scalar'):
                     form = 'elem'
@@ -571,8 +555,6 @@ def _case(draw):
             kw['dtype'] = kd
         desc['out'] = [draw(_out_desc(ekind, [
             'none', 'none', 'none', 'elem', 'ndarray', 'tensor']))]
-        desc['kwargs'] = kw
-        _thin_scalar_out(draw, desc, nd)
     elif method == 'accumulate':
         cls, ax = _axis(draw, nd, 'accumulate')
         if cls != 'absent':
@@ -644,7 +626,7 @@ def _case(draw):
                                  'value': draw(_scalar(dtype))}
             else:
                 desc['other'] = {'form': form, 'array': draw(vs.array_descs(
-                    sel_shape, dtype, lo=-30.0, hi=30.0))}
+                    sel_shape, dtype, lo=-30.0, hi=30.0, orders=ORDERS))}
     desc['kwargs'] = kw
     return desc
 
@@ -662,7 +644,7 @@ def _wrap_case(draw, ekind):
     adt = dtype if not _one_in(draw, 4) else draw(st.sampled_from(
         [d for d in DTYPES if np.can_cast(d, dtype, 'same_kind')]))
     desc = {'method': 'wrap', 'ekind': ekind, 'space': sd,
-            'array': draw(vs.array_descs(shape, adt, lo=-30.0, hi=30.0)),
+            'array': draw(vs.array_descs(shape, adt, lo=-30.0, hi=30.0, orders=ORDERS)),
             'order_arg': draw(st.sampled_from([None, None, 'C', 'F']))
             if ekind != 'pspace' else None,
             'out_order': draw(st.sampled_from(['C', 'F'])),
@@ -812,7 +794,31 @@ def _lay(vals, order):
     if order == 'rev':
         rv = tuple(slice(None, None, -1) for _ in vals.shape)
         return np.ascontiguousarray(vals[rv])[rv]
+    if order == 'unaligned':
+        return _unaligned(vals)
     raise HarnessError('unknown order {!r}'.format(order))
+
+
+def _unaligned(vals):
+    """Writable C-contiguous copy of ``vals`` whose data start one byte
+    into a buffer, i.e. not aligned for item sizes > 1."""
+    vals = np.asarray(vals)
+    buf = bytearray(vals.nbytes + 1)
+    arr = np.frombuffer(buf, dtype=vals.dtype, count=vals.size,
+                        offset=1).reshape(vals.shape)
+    arr[...] = vals
+    if not arr.flags.writeable:
+        raise HarnessError('unaligned array is not writable')
+    # one-byte dtypes (and platforms that align anyway) are counted apart
+    _MODE['unaligned' if not arr.flags.aligned else 'unaligned_na'] += 1
+    return arr
+
+
+def _build_array(ad, dtype=None, shape=None):
+    """`build.build_array` plus the 'unaligned' layout."""
+    if ad.get('order') == 'unaligned':
+        return _unaligned(build.array_values(ad, dtype, shape))
+    return build.build_array(ad, dtype, shape)
 
 
 def _stack(sd, ed):
@@ -822,8 +828,7 @@ def _stack(sd, ed):
         # x.asarray() of a power-space element is a fresh C-ordered array
         return np.ascontiguousarray(
             np.stack([_stack(parts[i], ed[i]) for i in range(len(parts))]))
-    return build.build_array(ed, dtype=sd['dtype'],
-                             shape=build.space_shape(sd))
+    return _build_array(ed, dtype=sd['dtype'], shape=build.space_shape(sd))
 
 
 def _ref_array(sd, ed):
@@ -855,7 +860,7 @@ INEXACT = {'arccos', 'arccosh', 'arcsin', 'arcsinh', 'arctan', 'arctan2',
            'log1p', 'log2', 'logaddexp', 'logaddexp2', 'power', 'float_power',
            'sin', 'sinh', 'tan', 'tanh', 'cbrt', 'hypot'}
 ULP_FALLBACK = 16
-_MODE = {'lenient': False, 'tolerated': 0}
+_MODE = {'lenient': False, 'tolerated': 0, 'unaligned': 0, 'unaligned_na': 0}
 
 
 def _same(a, b, ufunc=None):
@@ -1054,12 +1059,25 @@ class _Operand(object):
         self.ref = ref_obj
         self.is_elem = is_elem
         self.space = space
-        # (wrapped ndarray handed to ODL, reference ndarray) or None
         self.watch = watch
+        # leaf arrays that were handed to space.element (matching dtype and
+        # shape: the element must share their memory)
+        self.wrapped = []
 
 
-def _make_elem(space, sd, ed):
-    return build.build_element(space, sd, ed)
+def _make_elem(space, sd, ed, wrapped=None):
+    """Element wrapping the laid-out leaf arrays (collected in ``wrapped``,
+    depth first)."""
+    if sd['kind'] == 'pspace':
+        parts = build.space_parts(sd)
+        if len(ed) != len(parts):
+            raise HarnessError('element descriptor / pspace length mismatch')
+        return space.element([_make_elem(space[i], parts[i], ed[i], wrapped)
+                              for i in range(len(parts))])
+    arr = _build_array(ed, dtype=space.dtype, shape=space.shape)
+    if wrapped is not None:
+        wrapped.append(arr)
+    return space.element(arr)
 
 
 def _build_other(od, space, sd, x_op):
@@ -1067,19 +1085,25 @@ def _build_other(od, space, sd, x_op):
     if form == 'self':
         return x_op
     if form == 'elem':
-        y = _make_elem(space, sd, od['data'])
+        w = []
+        y = _make_elem(space, sd, od['data'], w)
         ref = _ref_array(sd, od['data']) if _sd_shape(sd) is not None \
             else None
-        return _Operand(y, ref, True, space)
+        op = _Operand(y, ref, True, space)
+        op.wrapped = w
+        return op
     if form == 'elem2':
         sp2 = build.build_space(od['space'])
-        y = _make_elem(sp2, od['space'], od['data'])
-        return _Operand(y, _ref_array(od['space'], od['data']), True, sp2)
+        w = []
+        y = _make_elem(sp2, od['space'], od['data'], w)
+        op = _Operand(y, _ref_array(od['space'], od['data']), True, sp2)
+        op.wrapped = w
+        return op
     if form == 'scalar':
         return _Operand(od['value'], od['value'])
     if form == 'ndarray':
-        a = build.build_array(od['array'])
-        return _Operand(a, build.build_array(od['array']), watch=True)
+        a = _build_array(od['array'])
+        return _Operand(a, _build_array(od['array']), watch=True)
     if form == 'list':
         lst = build.array_values(od['array']).tolist()
         lst2 = build.array_values(od['array']).tolist()
@@ -1088,12 +1112,13 @@ def _build_other(od, space, sd, x_op):
 
 
 def _make_out(od, ekind, sd, x_op, shape, dtype, other_op=None):
-    """(odl-side out object, reference out array, kind label)."""
+    """(odl-side out object, reference out array, kind label, array the
+    out element wraps or None)."""
     kind = od['kind']
     if kind == 'x':
-        return x_op.odl, x_op.ref, 'x'
+        return x_op.odl, x_op.ref, 'x', None
     if kind == 'other':
-        return other_op.odl, other_op.ref, 'other'
+        return other_op.odl, other_op.ref, 'other', None
     dt = np.dtype(dtype if od['dtype'] == 'match' else od['dtype'])
     shape = tuple(shape)
     if shape == () and kind != 'ndarray':
@@ -1101,17 +1126,18 @@ def _make_out(od, ekind, sd, x_op, shape, dtype, other_op=None):
     ref = _sentinel(shape, dt, od['order'])
     arr = _sentinel(shape, dt, od['order'])
     if kind == 'ndarray':
-        return arr, ref, 'ndarray' if shape != () else 'ndarray0d'
+        return arr, ref, 'ndarray' if shape != () else 'ndarray0d', None
     if kind == 'tensor' or (kind == 'elem' and ekind == 'tensor'):
         sp = odl.tensor_space(shape, dtype=dt)
-        return sp.element(arr), ref, 'tensor' if ekind == 'discr' else 'elem'
+        return (sp.element(arr), ref,
+                'tensor' if ekind == 'discr' else 'elem', arr)
     if ekind == 'discr':
         if shape == _sd_shape(sd):
             sp = build.build_space(_with_dtype(sd, dt, plain=True))
         else:
             sp = odl.uniform_discr([0.0] * len(shape), [1.0] * len(shape),
                                    shape, dtype=dt)
-        return sp.element(arr), ref, 'elem'
+        return sp.element(arr), ref, 'elem', arr
     # power space: the same space with the result dtype if the shape is
     # unchanged, otherwise a power space of tensor spaces of that shape
     if shape == _sd_shape(sd):
@@ -1121,15 +1147,24 @@ def _make_out(od, ekind, sd, x_op, shape, dtype, other_op=None):
     else:
         sp = odl.ProductSpace(odl.tensor_space(shape[1:], dtype=dt),
                               shape[0])
-    return sp.element(arr), ref, 'elem'
+    return sp.element(arr), ref, 'elem', None
 
 
 # --------------------------------------------------------------------------
 # the case
 
 RETRY_CLAUSES = ('|value|', '|out-value|', '|operand-modified|',
-                 '|at-mutation|')
+                 '|at-mutation|', '|wrapped-array|')
 RETRIES = 3
+
+
+def _layout_strata(out):
+    """Count the cases in which an array handed to ODL was unaligned."""
+    if _MODE['unaligned']:
+        out.strata.append('layout=unaligned')
+    elif _MODE['unaligned_na']:
+        out.strata.append('layout=unaligned-n/a')    # one-byte dtype
+    return out
 
 
 def _dispatch(desc):
@@ -1144,8 +1179,9 @@ def run_case(desc):
     with warnings.catch_warnings():
         warnings.simplefilter('ignore')
         _MODE['lenient'] = False
+        _MODE['unaligned'] = _MODE['unaligned_na'] = 0
         try:
-            return _dispatch(desc)
+            return _layout_strata(_dispatch(desc))
         except Violation as v:
             if not any(c in v.signature + '|' for c in RETRY_CLAUSES):
                 raise
@@ -1166,6 +1202,7 @@ def run_case(desc):
             finally:
                 _MODE['lenient'] = False
                 del junk
+            out = _layout_strata(out)
             out.notes = dict(out.notes or {})
             out.notes['numpy_kernel_flip_retried'] = 1
             if _MODE['tolerated']:
@@ -1196,11 +1233,13 @@ def _run_ufunc(desc):
     legacy = method == 'legacy'
 
     space = build.build_space(sd)
-    x = _make_elem(space, sd, desc['x'])
+    xw = []
+    x = _make_elem(space, sd, desc['x'], xw)
     if is_power:
         x_op = _Operand(x, _ref_array(sd, desc['x']), True, space)
     else:
         x_op = _Operand(x, None, True, space)
+    x_op.wrapped = xw
     ops = [x_op]
     if 'other' in desc:
         ops.append(_build_other(desc['other'], space, sd, x_op))
@@ -1278,6 +1317,7 @@ def _run_ufunc(desc):
 
     # ---- step B: out objects ---------------------------------------------
     outs_odl = outs_ref = None
+    outs_wrap = {}
     out_labels = []
     if has_out:
         outs_odl, outs_ref = [], []
@@ -1306,12 +1346,13 @@ def _run_ufunc(desc):
                     not isinstance(other_op.odl, np.ndarray) or
                     other_op.odl.shape != tuple(oshape)):
                 od = dict(od, kind='ndarray')
-            o, r, lab = _make_out(od, ekind, sd, x_op, oshape, odt,
-                                  other_op)
+            o, r, lab, w = _make_out(od, ekind, sd, x_op, oshape, odt,
+                                     other_op)
             if od['dtype'] != 'match':
                 lab += '-cast'
             outs_odl.append(o)
             outs_ref.append(r)
+            outs_wrap[i] = w
             out_labels.append(lab)
         sig.out = 'out=' + '+'.join(out_labels)
     strata.append(sig.out)
@@ -1375,7 +1416,7 @@ def _run_ufunc(desc):
             o_odl = outs_odl[i] if outs_odl is not None else None
             o_ref = outs_ref[i] if outs_ref is not None else None
             _compare_result(sig, desc, i, g, r, o_odl, o_ref, x, ops, kw,
-                            strata)
+                            strata, outs_wrap.get(i))
 
     # operands afterwards identical to NumPy's operands (not mutated, or
     # mutated exactly like NumPy for `at` / out being an operand)
@@ -1388,6 +1429,15 @@ def _run_ufunc(desc):
                             'operand {} after the call differs from NumPy\'s '
                             'operand: {}'.format(j, _diff_text(_cur(o.odl),
                                                                o.ref)))
+        # ... and so is the array the element was created from (no-copy
+        # wrapping: `at`, out=x reach the caller's array)
+        if o.wrapped and not _same(
+                np.concatenate([w.ravel() for w in o.wrapped]),
+                o.ref.ravel(), name):
+            raise Violation(sig('wrapped-array'),
+                            'the array wrapped by operand {} differs from '
+                            'NumPy\'s operand after the call (the element '
+                            'does not share its memory)'.format(j))
     if method == 'at':
         strata.append('at:' + desc['indices']['style'])
 
@@ -1429,7 +1479,8 @@ def _documented_rejection(ekind, method, kw, ops, exc, legacy):
     return ''
 
 
-def _compare_result(sig, desc, i, g, r, o_odl, o_ref, x, ops, kw, strata):
+def _compare_result(sig, desc, i, g, r, o_odl, o_ref, x, ops, kw, strata,
+                    o_wrap=None):
     method = desc['method']
     ekind = desc['ekind']
     lenient_scalar = ekind == 'pspace'
@@ -1445,6 +1496,11 @@ def _compare_result(sig, desc, i, g, r, o_odl, o_ref, x, ops, kw, strata):
             raise Violation(sig('out-value', tail),
                             'out {} holds other values than NumPy\'s out: {}'
                             ''.format(i, _diff_text(_cur(o_odl), o_ref)))
+        if o_wrap is not None and not _same(o_wrap, o_ref, desc['ufunc']):
+            raise Violation(sig('wrapped-array', tail),
+                            'the array wrapped by out element {} was not '
+                            'written (the element does not share its '
+                            'memory)'.format(i))
         return
 
     # --- scalar results ---------------------------------------------------
@@ -1652,7 +1708,7 @@ def _run_legacy_red(desc):
 
     if ekind == 'pspace':
         # documented as "the sum/product/min/max of self", no arguments
-        leaves = [build.build_array(ed, dtype=l['dtype'],
+        leaves = [_build_array(ed, dtype=l['dtype'],
                                     shape=build.space_shape(l))
                   for l, ed in zip(build.leaf_descs(sd),
                                    build.flatten_values(desc['x']))]
@@ -1704,16 +1760,16 @@ def _run_legacy_red(desc):
             strata.append('kw:' + k)
     ref0, np_exc = _call_numpy(lambda: uf.reduce(a, **kwr))
     od = (desc.get('out') or [None])[0]
-    o_odl = o_ref = None
+    o_odl = o_ref = o_wrap = None
     ref = ref0
     if np_exc is None:
         sig.dt = _dtclass(in_dtype, [np.asarray(ref0).dtype])
         if od is not None:
             if 'dtype' in kw:
                 od = dict(od, dtype='match')    # see ASSUMPTIONS
-            o_odl, o_ref, lab = _make_out(od, ekind, sd, x_op,
-                                          np.asarray(ref0).shape,
-                                          np.asarray(ref0).dtype)
+            o_odl, o_ref, lab, o_wrap = _make_out(od, ekind, sd, x_op,
+                                                  np.asarray(ref0).shape,
+                                                  np.asarray(ref0).dtype)
             sig.out = 'out=' + lab + ('' if od['dtype'] == 'match'
                                       else '-cast')
             ref, np_exc = _call_numpy(lambda: uf.reduce(a, out=o_ref, **kwr))
@@ -1744,7 +1800,7 @@ def _run_legacy_red(desc):
                                   str(odl_exc)[:300]))
     fake = dict(desc, method='reduce', ufunc=uf.__name__)
     _compare_result(sig, fake, 0, got, ref, o_odl, o_ref, x, [x_op], kwr,
-                    strata)
+                    strata, o_wrap)
     if not _same(_cur(x), a):
         raise Violation(sig('operand-modified'), 'element changed')
     return Outcome('ok', strata=strata)
@@ -1761,8 +1817,8 @@ def _run_wrap(desc):
     shape = _sd_shape(sd)
     sig = _Sig(_ekind_label(ekind, sd), 'wrap')
     space = build.build_space(sd)
-    arr = build.build_array(ad)
-    ref = build.build_array(ad)
+    arr = _build_array(ad)
+    ref = _build_array(ad)
     order = desc.get('order_arg')
     matching = arr.dtype == dtype and arr.shape == tuple(shape)
     sig.dt = 'match' if arr.dtype == dtype else 'cast'
@@ -1820,6 +1876,15 @@ def _run_wrap(desc):
                 raise Violation(sig('shares-memory', 'read-through'),
                                 'writing to the array did not change the '
                                 'element')
+            # in-place ufuncs on the element reach the wrapped array
+            np.add(e, e, out=e)
+            np.add(ref, ref, out=ref)
+            np.add.at(e, tuple([int(i)] * 2 for i in idx), val)
+            np.add.at(ref, tuple([int(i)] * 2 for i in idx), val)
+            if not _same(arr, ref) or not _same(e.asarray(), ref):
+                raise Violation(sig('shares-memory', 'ufunc-in-place'),
+                                'np.add(x, x, out=x) / np.add.at(x, ..) did '
+                                'not update the wrapped array like NumPy')
             expected = ref.astype(dtype)
         # round trip: wrapping asarray() again shares the same memory
         e2 = space.element(e.asarray())
@@ -1872,5 +1937,6 @@ REQUIRED_STRATA = [
     'partition:reduced2of3', 'np-rejects:odl-rejects',
     'rejected:discr-reduce-keepdims', 'rejected:discr-reduceat',
     'rejected:discr-outer-nonelement', 'shares-memory', 'layout:F',
+    'layout=unaligned', 'layout:unaligned',
     'layout:strided', 'layout:rev', 'at:first', 'at:full',
 ]
